@@ -720,12 +720,66 @@ func toLower(s string) String {
 	return unicodeStringFromRunes(r)
 }
 
+// hasUnpairedSurrogates reports whether s cannot be represented in UTF-8 without loss.
+func (s unicodeString) hasUnpairedSurrogates() bool {
+	for i := 1; i < len(s); i++ {
+		c := s[i]
+		if isUTF16FirstSurrogate(c) {
+			if i+1 < len(s) && isUTF16SecondSurrogate(s[i+1]) {
+				i++
+				continue
+			}
+			return true
+		}
+		if isUTF16SecondSurrogate(c) {
+			return true
+		}
+	}
+	return false
+}
+
+// mapWellFormed applies f to every maximal well-formed run of s (converted to UTF-8) and copies the
+// unpaired surrogates between the runs unchanged. An unpaired surrogate is neither cased nor
+// case-ignorable and takes part in no (de)composition, so the runs can be mapped independently.
+func (s unicodeString) mapWellFormed(f func(string) String) String {
+	var sb StringBuilder
+	start := 1
+	for i := 1; i < len(s); i++ {
+		c := s[i]
+		if isUTF16FirstSurrogate(c) {
+			if i+1 < len(s) && isUTF16SecondSurrogate(s[i+1]) {
+				i++
+				continue
+			}
+		} else if !isUTF16SecondSurrogate(c) {
+			continue
+		}
+		if i > start {
+			sb.WriteString(f(string(utf16.Decode(s[start:i]))))
+		}
+		sb.WriteRune(rune(c))
+		start = i + 1
+	}
+	if len(s) > start {
+		sb.WriteString(f(string(utf16.Decode(s[start:]))))
+	}
+	return sb.String()
+}
+
 func (s unicodeString) toLower() String {
+	if s.hasUnpairedSurrogates() {
+		return s.mapWellFormed(toLower)
+	}
 	return toLower(s.String())
 }
 
 func (s unicodeString) toUpper() String {
 	caser := cases.Upper(language.Und)
+	if s.hasUnpairedSurrogates() {
+		return s.mapWellFormed(func(str string) String {
+			return newStringValue(caser.String(str))
+		})
+	}
 	return newStringValue(caser.String(s.String()))
 }
 
